@@ -10,6 +10,16 @@ SEEDS = {
     "c17-1": ("C17", "an outer comment (before or after the csvpath) containing a '$'", ["C17"]),
     "c18-1": ("C18", "a serial run that aborts followed, on the same CsvPaths instance, by a breadth-first run (stale run directory reused)", ["C18"]),
     "c20-1": ("C20", "a results reference used as the file name together with a source-mode: preceding member (reads the replayed file again)", ["C20"]),
+    "c01-2": ("C01", "a variable assigned from an empty/blank cell (or the text None) followed by a bare existence test of that variable", ["C01"]),
+    "c02-2": ("C02", "a '+'-list whose first operand is a forward range starting at 0 (0-k+...) with a later operand on a non-blank record", ["C02"]),
+    "c03-2": ("C03", "counter.NAME(n) whose increment evaluates to 0 (adds 1 instead of 0)", ["C03"]),
+    "c04-2": ("C04", "policy with fail: a component errors on line N, a later component of the same line stops the run, and at least one more component follows (queued errors never handled)", ["C04"]),
+    "c05-2": ("C05", "validation-mode no-match with an error in a nested or right-hand component (line returned as a match)", ["C05"]),
+    "c06-2": ("C06", "named header on a ragged row with exactly index-many cells (IndexError instead of absent)", ["C06"]),
+    "c07-2": ("C07", "unmatched-mode keep + collect(): a stop landing on an unmatched line is ignored, the run reads on", ["C07"]),
+    "c08-2": ("C08", "CsvPaths-managed member on a file with a blank line using total_lines()/percent (line monitor copy mixes data and physical totals)", ["C08"]),
+    "c09-2": ("C09", "unmatched-mode keep with exactly one unmatched line: unmatched.csv not written", ["C09"]),
+    "c10-2": ("C10", ":last/:first with a collision-suffixed run directory at hour >= 12 (suffix format parsed with %I)", ["C10"]),
     "c02-1": ("C02", "lone reversed range whose low bound is 0 ([3-0]) with record 0 non-blank and a later non-blank record in range", ["C02"]),
     "c03-1": ("C03", "first() on a value first seen on line 0 that re-appears later; scan must include line 0", ["C03"]),
     "c05-1": ("C05", "validation-mode whose FIRST token is no-stop, a non-raising error, and at least one more line after it", ["C05"]),
